@@ -101,6 +101,9 @@ fn run_case(dir: &std::path::Path, c: &Case) -> Result<(Vec<(Vec<i64>, Vec<i64>,
     lives[li].push(Op::Observe { queries: vec!["SHOW m1".into(), c.q.to_string()] });
     let second = (li, lives[li].len());
     lives[li].push(Op::Cmd { text: format!("REMEMBER QUERY {} AS m1", &c.q["QUERY ".len()..]) });
+    // the rejected REMEMBER must be without effect: SHOW once more
+    show_pos.push((li, lives[li].len()));
+    lives[li].push(Op::Observe { queries: vec!["SHOW m1".into(), c.q.to_string()] });
     let specs: Vec<LifeSpec> = lives.into_iter().map(|ops| LifeSpec { ops, snap: SnapMode::Off, fsmon: false }).collect();
     // the clock only moves by Tick ops: several STOREs share one millisecond
     let root = dir.join("db");
@@ -252,7 +255,7 @@ pub fn check(tier: &str) -> i32 {
             "failing_cases": failing.len(),
             "depth": d,
             "exhaustive": tier != "quick",
-            "explanation": "all sequences of length d over {STORE in the same millisecond, (STORE 1 ms later,) STORE 1 s later, FLUSH, COMPACT, RESTART, SHOW+QUERY} with REMEMBER inserted at every position (quick: every second position on the 2-shard configuration), followed by two SHOWs and a second REMEMBER under the same name; events alternate between two contexts (different shards when there are two); oracle: keys of SHOW m == keys of QUERY q issued right after, each once; repeated SHOW identical; second REMEMBER rejected",
+            "explanation": "all sequences of length d over {STORE in the same millisecond, (STORE 1 ms later,) STORE 1 s later, FLUSH, COMPACT, RESTART, SHOW+QUERY} with REMEMBER inserted at every position (quick: every second position on the 2-shard configuration), followed by two SHOWs, a second REMEMBER under the same name and one more SHOW (the rejected REMEMBER must be without effect); events alternate between two contexts (different shards when there are two); oracle: keys of SHOW m == keys of QUERY q issued right after, each once; repeated SHOW identical; second REMEMBER rejected",
         }),
         assumptions: vec!["wall clock injected by interposing clock_gettime; it moves only where the history says so".into()],
         wall_s: t0.elapsed().as_secs_f64(),
